@@ -121,6 +121,8 @@ pub enum Out {
     Pipe,
     /// a regular file (relative to cwd); contents returned as stdout
     File(String),
+    /// a regular file (relative to cwd) opened for appending: what is in it stays, stdout starts at its end; contents returned as stdout
+    FileAppend(String),
     /// /dev/full: every write fails with ENOSPC (kernel-provided deterministic fault)
     DevFull,
     Null,
@@ -163,7 +165,7 @@ impl Child {
             "profile": self.profile.name(),
             "args": self.args,
             "stdin": match &self.stdin { In::Null => json!("null"), In::File(f) => json!({"file": f}), In::Pipe(b) => json!({"pipe_bytes": b.len()}), In::FileAt(f, o) => json!({"file": f, "offset": o}) },
-            "stdout": match &self.stdout { Out::Pipe => json!("pipe"), Out::File(f) => json!({"file": f}), Out::DevFull => json!("/dev/full"), Out::Null => json!("null") },
+            "stdout": match &self.stdout { Out::Pipe => json!("pipe"), Out::File(f) => json!({"file": f}), Out::FileAppend(f) => json!({"append_to_file": f}), Out::DevFull => json!("/dev/full"), Out::Null => json!("null") },
             "env": self.env,
             "shim": self.shim.as_ref().map(|s| s.to_json()),
             "aslr": self.aslr,
@@ -246,6 +248,40 @@ const ADDR_NO_RANDOMIZE: u64 = 0x0040000;
 pub const CPU_LIMIT_S: u64 = 20;
 
 static SCRATCH_SEQ: AtomicU64 = AtomicU64::new(0);
+
+// ------------------------------------------------------------------------------------------------
+// Liveness guard of the harness itself. The CPU-time rlimit ends a child that spins; it cannot end one that *blocks* for ever
+// (a lock nobody releases, a pipe nobody feeds). Every spawned child is registered here; one background thread kills (SIGKILL)
+// any child older than WALL_LIMIT_S of wall time. The kill is reported as Exit::Timeout, which no oracle ever turns into a
+// verdict — so the real clock decides nothing except that the batch ends.
+pub const WALL_LIMIT_S: u64 = 45;
+static WATCHED: std::sync::Mutex<Vec<(u32, std::time::Instant)>> = std::sync::Mutex::new(Vec::new());
+static WATCHDOG: std::sync::Once = std::sync::Once::new();
+pub static WALL_KILLS: AtomicU64 = AtomicU64::new(0);
+
+extern "C" { fn kill(pid: i32, sig: i32) -> i32; }
+
+fn watch(pid: u32) {
+    WATCHDOG.call_once(|| {
+        std::thread::spawn(|| loop {
+            std::thread::sleep(std::time::Duration::from_millis(500));
+            let now = std::time::Instant::now();
+            if let Ok(list) = WATCHED.lock() {
+                for (pid, since) in list.iter() {
+                    if now.duration_since(*since).as_secs() >= WALL_LIMIT_S {
+                        unsafe { kill(*pid as i32, 9); }
+                        WALL_KILLS.fetch_add(1, Ordering::Relaxed);
+                    }
+                }
+            }
+        });
+    });
+    if let Ok(mut list) = WATCHED.lock() { list.push((pid, std::time::Instant::now())); }
+}
+
+fn unwatch(pid: u32) {
+    if let Ok(mut list) = WATCHED.lock() { list.retain(|(p, _)| *p != pid); }
+}
 
 /// Called once at orchestrator start-up: limits that children inherit.
 pub fn init_process_limits() {
@@ -361,6 +397,12 @@ fn prepare(cwd: &Path, c: &Child) -> (Command, Option<PathBuf>, PathBuf, PathBuf
             cmd.stdout(Stdio::from(file));
             out_file = Some(p);
         }
+        Out::FileAppend(f) => {
+            let p = cwd.join(f);
+            let file = std::fs::OpenOptions::new().append(true).create(true).open(&p).expect("open stdout file for appending");
+            cmd.stdout(Stdio::from(file));
+            out_file = Some(p);
+        }
         Out::DevFull => {
             let file = std::fs::OpenOptions::new().write(true).open("/dev/full").expect("/dev/full");
             cmd.stdout(Stdio::from(file));
@@ -388,6 +430,8 @@ pub fn run_child(cwd: &Path, c: &Child) -> ChildResult {
             std::process::exit(2);
         }
     };
+    let child_pid = child.id();
+    watch(child_pid);
     let feeder = if let In::Pipe(bytes) = &c.stdin {
         let mut stdin = child.stdin.take().unwrap();
         let bytes = bytes.clone();
@@ -405,6 +449,7 @@ pub fn run_child(cwd: &Path, c: &Child) -> ChildResult {
             std::process::exit(2);
         }
     };
+    unwatch(child_pid);
     if let Some(f) = feeder {
         let _ = f.join();
     }
@@ -446,7 +491,17 @@ pub fn run_second_while_first_waits_for_input(cwd: &Path, first: &Child, first_i
         if spins > 20_000_000 { break; } // a process that neither reads its input nor ends: the second one runs anyway
         std::thread::yield_now();
     }
-    let second_result = run_child(cwd, second);
+    watch(pid);
+    // the second invocation runs in its own thread. Normally it ends within milliseconds and the first is fed afterwards; if it
+    // does not end (it may be waiting for something the first one holds), the first is fed anyway after a bounded wait, so that
+    // the harness can never be the cause of a deadlock between the two.
+    let cwd2 = cwd.to_path_buf();
+    let second2 = second.clone();
+    let done = std::sync::Arc::new(std::sync::atomic::AtomicBool::new(false));
+    let done2 = done.clone();
+    let handle = std::thread::spawn(move || { let r = run_child(&cwd2, &second2); done2.store(true, Ordering::SeqCst); r });
+    let started = std::time::Instant::now();
+    while !done.load(Ordering::SeqCst) && started.elapsed().as_millis() < 3000 { std::thread::sleep(std::time::Duration::from_micros(200)); }
     {
         use std::io::Write;
         if let Some(mut stdin) = child.stdin.take() { let _ = stdin.write_all(first_input); }
@@ -455,6 +510,8 @@ pub fn run_second_while_first_waits_for_input(cwd: &Path, first: &Child, first_i
         Ok(o) => o,
         Err(e) => { eprintln!("HARNESS-ERROR wait failed: {}", e); std::process::exit(2); }
     };
+    unwatch(pid);
+    let second_result = handle.join().unwrap_or_else(|_| ChildResult { exit: Exit::Timeout, stdout: vec![], stderr: vec![], trace: String::new() });
     let exit = match (output.status.code(), output.status.signal()) {
         (Some(c), _) => Exit::Code(c),
         (None, Some(24)) | (None, Some(9)) => Exit::Timeout,
@@ -466,6 +523,76 @@ pub fn run_second_while_first_waits_for_input(cwd: &Path, first: &Child, first_i
     (ChildResult { exit, stdout, stderr: output.stderr, trace }, second_result)
 }
 
+
+
+/// Two live invocations under a cooperative scheduler the harness owns. Both children announce themselves before each of their
+/// first calls of the listed kinds (shim FMLSIM_SCHED_*) and wait; whenever neither is running, the harness lets one proceed —
+/// which one is read from `choices` (data of the case, drawn from the seed and stored in the replay). So the interleaving of
+/// "A opens its output, B opens its output, A writes, B writes, ..." is decided here, not by the kernel. Returns both results
+/// and the schedule that was actually taken.
+pub fn run_scheduled_pair(cwd: &Path, a: &Child, b: &Child, kinds: &str, choices: &[u8]) -> (ChildResult, ChildResult, String) {
+    let sched = cwd.join(".sched");
+    let _ = std::fs::remove_dir_all(&sched);
+    std::fs::create_dir_all(&sched).unwrap();
+    let sched_abs = std::fs::canonicalize(&sched).unwrap_or(sched.clone());
+    let mk = |c: &Child, id: &str| {
+        let mut c = c.clone();
+        c.trace_name = Some(format!(".fmlsim-trace-{}", id));
+        c.env.push(("FMLSIM_SCHED_DIR".into(), sched_abs.to_string_lossy().to_string()));
+        c.env.push(("FMLSIM_SCHED_ID".into(), id.to_string()));
+        c.env.push(("FMLSIM_SCHED_AT".into(), kinds.to_string()));
+        c
+    };
+    let (ca, cb) = (mk(a, "A"), mk(b, "B"));
+    let done = [std::sync::Arc::new(std::sync::atomic::AtomicBool::new(false)), std::sync::Arc::new(std::sync::atomic::AtomicBool::new(false))];
+    let mut handles = Vec::new();
+    for (i, c) in vec![ca, cb].into_iter().enumerate() {
+        let cwd2 = cwd.to_path_buf();
+        let d = done[i].clone();
+        handles.push(std::thread::spawn(move || { let r = run_child(&cwd2, &c); d.store(true, Ordering::SeqCst); r }));
+    }
+    let ids = ["A", "B"];
+    let mut next = [0usize, 0usize]; // next announce number expected from each
+    let mut log = String::new();
+    let mut turn = 0usize;
+    let mut idle_since: Option<std::time::Instant> = None;
+    loop {
+        let fin = [done[0].load(Ordering::SeqCst), done[1].load(Ordering::SeqCst)];
+        if fin[0] && fin[1] { break; }
+        let parked: Vec<bool> = (0..2).map(|i| !fin[i] && sched.join(format!("{}.{}.at", ids[i], next[i])).exists()).collect();
+        let running: Vec<bool> = (0..2).map(|i| !fin[i] && !parked[i]).collect();
+        let release = |i: usize, next: &mut [usize; 2], log: &mut String| {
+            let kind = std::fs::read_to_string(sched.join(format!("{}.{}.at", ids[i], next[i]))).unwrap_or_default();
+            let _ = std::fs::write(sched.join(format!("{}.{}.go", ids[i], next[i])), b"go");
+            log.push_str(&format!("{}:{} ", ids[i], kind));
+            next[i] += 1;
+        };
+        if !running[0] && !running[1] {
+            idle_since = None;
+            let pick = match (parked[0], parked[1]) {
+                (true, true) => { let c = choices.get(turn % choices.len().max(1)).copied().unwrap_or(0) as usize & 1; turn += 1; c }
+                (true, false) => 0,
+                (false, true) => 1,
+                _ => { std::thread::yield_now(); continue; }
+            };
+            release(pick, &mut next, &mut log);
+        } else {
+            // someone is running (or blocked on something the parked peer holds): give it time; if it neither parks nor ends
+            // within two seconds while the other one is parked, let the parked one go too — the harness must not cause a deadlock
+            let t = *idle_since.get_or_insert_with(std::time::Instant::now);
+            if t.elapsed().as_millis() > 2000 {
+                for i in 0..2 { if parked[i] { release(i, &mut next, &mut log); } }
+                idle_since = None;
+            }
+            std::thread::sleep(std::time::Duration::from_micros(100));
+        }
+    }
+    let mut rs: Vec<ChildResult> = handles.into_iter().map(|h| h.join().unwrap_or_else(|_| ChildResult { exit: Exit::Timeout, stdout: vec![], stderr: vec![], trace: String::new() })).collect();
+    let _ = std::fs::remove_dir_all(&sched);
+    let rb = rs.pop().unwrap();
+    let ra = rs.pop().unwrap();
+    (ra, rb, log.trim_end().to_string())
+}
 
 /// A live pipeline: every stage is spawned before any is waited for, stage k's stdout is stage k+1's stdin through a kernel
 /// pipe, the last stage's stdout is captured. All stages are alive at once; the kernel decides who runs. (Each stage keeps
@@ -486,11 +613,13 @@ pub fn run_live_pipeline(cwd: &Path, stages: &[Child]) -> Vec<ChildResult> {
             Err(e) => { eprintln!("HARNESS-ERROR cannot spawn {}: {}", bin.display(), e); std::process::exit(2); }
         };
         if i + 1 < stages.len() { prev_out = child.stdout.take(); }
+        watch(child.id());
         children.push((child, trace_path));
     }
     // wait from the last stage backwards: its output is the only one the harness has to drain
     let mut results: Vec<Option<ChildResult>> = (0..children.len()).map(|_| None).collect();
     for (i, (child, trace_path)) in children.into_iter().enumerate().rev() {
+        let cpid = child.id();
         let output = match child.wait_with_output() {
             Ok(o) => o,
             Err(e) => { eprintln!("HARNESS-ERROR wait failed: {}", e); std::process::exit(2); }
@@ -501,6 +630,7 @@ pub fn run_live_pipeline(cwd: &Path, stages: &[Child]) -> Vec<ChildResult> {
             (None, Some(s)) => Exit::Signal(s),
             _ => Exit::Signal(-1),
         };
+        unwatch(cpid);
         let trace = std::fs::read_to_string(&trace_path).unwrap_or_default();
         results[i] = Some(ChildResult { exit, stdout: output.stdout, stderr: output.stderr, trace });
     }
